@@ -32,7 +32,9 @@ META = {
                   'named keeps its original behaviour; (5) a mocked method enters the callback with the caller\'s receiver as argument 0 for '
                   'every instance; (6) for every history of the handle-level model (kept Struct(..).Method / ExportMethod / ExportStruct(..).Method '
                   'handles with Apply, Return, Returns, When..Return, As(..).Return, Cancel, re-arming, Reset) a method no lookup names is never '
-                  'patched, Apply on a handle hits exactly its target, and on one-shot histories the handle-level model refines the patch-level one. '
+                  'patched, Apply on a handle hits exactly its target, and on one-shot histories the handle-level model refines the patch-level one; '
+                  '(7) a guard created with patch.InstanceMethod installs the callback given at creation whatever other guards are created in between; '
+                  '(8) GetInnerFunc over an instruction list returns the first CALL that leaves the wrapper. '
                   'Observed, not proved: the linker\'s naming, reflect\'s method table, compiler wrappers / shape bodies / '
                   'devirtualisation, register preservation by the entry jump.',
     'level_note': 'Promoted methods of embedded structs are mocked through the outer type and called through its method set (a real '
@@ -41,8 +43,10 @@ META = {
                   'Corpus obeys the README rule that the instance handed to Struct() has the receiver kind of the method (a value method '
                   'mocked through a pointer instance only patches the (*T).m wrapper). Instantiations of EQUAL GC shape share one body, so '
                   'mocking one mocks the other (the property only excludes different shapes). Known gaps recorded as findings: unexported '
-                  'methods of generic instantiations cannot be mocked by name (C06-K1; histories that patch a generic wrapper by name and then mock the same method via Method() are checked by the oracle only, the model does not cover a patched wrapper). Outside the statement but observed: a callback on a generic '
-                  'method receives the dictionary pointer as its first ordinary parameter (receiver still correct). Build uses -gcflags=all=-l.',
+                  'methods of generic instantiations cannot be mocked by name (C06-K1; histories that patch a generic wrapper by name and then mock the same method via Method() are checked by the oracle only, the model does not cover a patched wrapper). Since fix 79126f8 the callback of a generic method is called through an '
+                  'adapter that drops the dictionary word: receiver AND arguments are checked exactly for generic instances too (register, stack-passed, '
+                  'variadic and float parameters; big by-value receivers need repair F27). Origin(&placeholder) is exercised for ordinary types only '
+                  '(a placeholder for a shape body would be entered without dictionary). Build uses -gcflags=all=-l.',
 }
 
 BASE = 'github.com/tencent/goom/internal/zzverif/c06'
@@ -53,8 +57,9 @@ PKGS = {  # key -> (path, package name, import alias in the probe)
     'yu': (BASE + '/y/util', 'util', 'yutil'),
     'ab': (BASE + '/a_b', 'a_b', 'pab'),
     'a': (BASE + '/a', 'a', 'pa2'),
+    'yv': (BASE + '/y.v2', 'v2', 'yv2'),      # a dot in the last path element: the linker escapes it (y%2ev2)
 }
-PKGDIR = {'pa': 'pa', 'xu': 'x/util', 'yu': 'y/util', 'ab': 'a_b', 'a': 'a'}
+PKGDIR = {'pa': 'pa', 'xu': 'x/util', 'yu': 'y/util', 'ab': 'a_b', 'a': 'a', 'yv': 'y.v2'}
 LAYOUTS = {
     0: ('A int64', lambda a: f'A: {a}'),
     1: ('A int64; B string', lambda a: f'A: {a}, B: "s{a}"'),
@@ -63,7 +68,10 @@ LAYOUTS = {
     4: ('', lambda a: ''),
 }
 PARAMS = {0: ('', ''), 1: ('x int64', 'w.WantX'), 2: ('x int64, s string', 'w.WantX, w.WantS'),
-          3: ('a [4]int64, b [4]int64', 'w.WantArr, w.WantArr2')}   # kind 3: stack-passed arguments
+          3: ('a [4]int64, b [4]int64', 'w.WantArr, w.WantArr2'),   # kind 3: stack-passed arguments
+          4: ('c [16]int64', 'w.WantArr16'),                        # kind 4: big enough for runtime.duffcopy in a wrapper
+          5: ('xs ...int64', 'w.WantX, w.WantX + 1'),               # kind 5: variadic
+          6: ('f float64, x int64', 'w.WantF, w.WantX')}            # kind 6: a float register parameter in front of an integer one
 NAMEPOOL = ['Get', 'GetX', 'GetXY', 'get', 'getX', 'Set', 'Se', 'set', 'G', 'g', 'Value', 'Val', 'value', 'M', 'm', 'mm', 'Getx', 'gET']
 UNEXP_TYPES = ['t', 't2', 'tt', 'conn', 'conn2', 'connX', 'c', 'impl', 'implA', 'node', 'nodeList', 'n', 'state', 'st', 'e0', 'eE']
 GEN_ARGS = [  # Go type argument, reflect spelling, shape
@@ -127,16 +135,26 @@ def gen_corpus(tier, rng):
             types.append(Ty(pk, f'T{i}', i % 4, [('Get', i % 2 == 1, 0), ('GetX', i % 2 == 1, 1), ('get', i % 2 == 1, 1), ('Set', True, 2)]))
         for i in range(3):
             types.append(Ty(pk, ['u', 'u2', 'uu'][i], i % 4, [('m', True, 1), ('mm', True, 0), ('v', False, 1), ('M', i == 1, 0)]))
+    for i in range(2):
+        types.append(Ty('yv', f'T{i}', i, [('Get', i == 1, 0), ('get', i == 1, 1), ('Set', True, 2), ('set', True, 0)]))
+    types.append(Ty('yv', 'u', 1, [('m', True, 1), ('v', False, 0)]))
     types.append(Ty('ab', 'T', 1, [('m', False, 1), ('M', False, 0), ('p', True, 1)]))
     types.append(Ty('a', 'b_T', 1, [('m', False, 1), ('M', False, 0), ('p', True, 1)]))
     gens = []
     for g in range(n_gen):
         gm = [('Get', True, 0), ('GetX', True, 1), ('Val', False, 0), ('get', True, 0), ('Value', False, 2 if g % 2 else 1),
-              ('Big', True, 3), ('BigV', False, 3)]      # stack-passed arguments: the CALL sits far into the instantiation wrapper
-        gens.append((f'G{g}', gm))
+              ('Big', True, 3), ('BigV', False, 3), ('Var', True, 5), ('Flt', g % 2 == 0, 6)]      # stack-passed arguments: the CALL sits far into the instantiation wrapper
+        gens.append((f'G{g}', gm, ''))
         for a in range(n_inst):
             go, refl, shape = GEN_ARGS[(a + g) % len(GEN_ARGS)] if tier != 'quick' else GEN_ARGS[a % len(GEN_ARGS)]
             types.append(Ty('pa', f'G{g}[{refl}]', 5, gm, generic=(f'G{g}', go, f'G{g}[{shape}]')))
+    # generic types whose instantiation wrappers copy a big value receiver / parameter with runtime.duffcopy BEFORE calling the shape body
+    for g in range(1 if tier == 'quick' else 2):
+        gm = [('Get', True, 0), ('Val', False, 0), ('Arr', True, 4), ('ValX', False, 1)]
+        gens.append((f'GB{g}', gm, 'Pad [16]int64'))
+        for a in range(3 if tier == 'quick' else 5):
+            go, refl, shape = GEN_ARGS[(a * 3 + g) % len(GEN_ARGS)]
+            types.append(Ty('pa', f'GB{g}[{refl}]', 5, gm, generic=(f'GB{g}', go, f'GB{g}[{shape}]')))
     # embedding: a base struct with value and pointer methods, two different outer types sharing it
     for b in range(2 if tier == 'quick' else 4):
         bm = [('Name', True, 0), ('NameX', True, 1), ('Val', False, 0), ('name', True, 1), ('Big', True, 3), ('Value', False, 2)]
@@ -151,6 +169,7 @@ def gen_corpus(tier, rng):
             entries.append({'id': eid, 'pk': t.pk, 'pkg': PKGS[t.pk][0], 'T': t.name, 'ptr': ptr, 'm': m, 'np': np_,
                             'shape': t.generic[2] if t.generic else '-', 'K': 100000 + eid * 17, 'layout': t.layout,
                             'exported_type': t.exported, 'generic': t.generic, 'promoted': None, 'outer': t.outer,
+                            'duff': bool(t.generic and t.generic[0].startswith('GB') and (not ptr or np_ == 4)),
                             'go': (f'{t.generic[0]}[{t.generic[1]}]' if t.generic else t.name)})
             byname[(t.pk, t.name, m)] = entries[-1]
         if t.embeds:
@@ -168,7 +187,14 @@ def gen_corpus(tier, rng):
     return types, gens, entries
 
 
+def sym_prefix(pkg):
+    """cmd/internal/objabi.PathToPrefix: what the linker uses as the prefix of the package's symbols"""
+    slash = pkg.rfind('/')
+    return ''.join('%%%02x' % ord(c) if (ord(c) <= 32 or (c == '.' and i > slash) or c in '%"' or ord(c) >= 127) else c for i, c in enumerate(pkg))
+
+
 def link_name(pkg, T, ptr, m):
+    pkg = sym_prefix(pkg)
     return f'{pkg}.(*{T}).{m}' if ptr else f'{pkg}.{T}.{m}'
 
 
@@ -194,8 +220,8 @@ def emit_sources(types, gens, entries, outdir):
         src = ['//go:build go1.18', '', f'package {pname}', '', 'import (', '\t"unsafe"', '', f'\t"{BASE}/w"', ')', '', 'var _ = unsafe.Pointer(nil)', '']
         if pk == 'pa':
             src += ['type MyInt int', 'type MyStr string', '']
-            for gname, gm in gens:
-                src.append(f'type {gname}[T any] struct {{\n\tA int64\n\tV T\n}}\n')
+            for gname, gm, extra in gens:
+                src.append(f'type {gname}[T any] struct {{\n\tA int64\n\tV T\n\t{extra}\n}}\n')
                 for (m, ptr, np_) in gm:
                     # K is per entry (instantiation); the body reads it from a per-instantiation table keyed by the dictionary-free
                     # receiver field KK, set by the call function
@@ -252,7 +278,8 @@ def emit_sources(types, gens, entries, outdir):
         call = f'CallE{e["id"]}' if e['pk'] == 'pa' else f'{PKGS[e["pk"]][2]}.CallE{e["id"]}'
         reg.append(f'\t{{ID: {e["id"]}, Pkg: "{e["pkg"]}", T: "{e["T"]}", Ptr: {"true" if e["ptr"] else "false"}, M: "{e["m"]}", '
                    f'K: {e["K"]}, NP: {e["np"]}, Call: {call}, Look: lookE{e["id"]}, Cb: cbE{e["id"]}, StandIn: standInE{e["id"]}, '
-                   f'Tmpl: {("tmplE%d" % e["id"]) if (e["pk"] == "pa" or e["exported_type"]) else "nil"}}},')
+                   f'Tmpl: {("tmplE%d" % e["id"]) if (e["pk"] == "pa" or e["exported_type"]) else "nil"}, '
+                   f'Orig: {("origPtrE%d" % e["id"]) if has_origin(e) else "nil"}, CbO: {("cbOE%d" % e["id"]) if has_origin(e) else "nil"}}},')
     reg.append('}')
     d = os.path.join(outdir, 'pa')
     fp = os.path.join(d, 'reg_gen_test.go')
@@ -266,8 +293,9 @@ def emit_sources(types, gens, entries, outdir):
 def body_tail(np_, helper=False):
     """non-leaf variant: the multiplication goes through the (never inlined) helper w.Id, so the body contains a CALL"""
     if helper:
-        return [' + w.Id(0)', ' + w.Id(x*31)', ' + w.Id(x*31) + int64(len(s))', ' + w.Id(a[0]*31) + b[3]'][np_]
-    return ['', ' + x*31', ' + x*31 + int64(len(s))', ' + a[0]*31 + b[3]'][np_]
+        return [' + w.Id(0)', ' + w.Id(x*31)', ' + w.Id(x*31) + int64(len(s))', ' + w.Id(a[0]*31) + b[3]', ' + w.Id(c[3]*31)',
+                ' + w.Id(int64(len(xs))*31) + xs[0]', ' + w.Id(x*31) + int64(f*2)'][np_]
+    return ['', ' + x*31', ' + x*31 + int64(len(s))', ' + a[0]*31 + b[3]', ' + c[3]*31', ' + int64(len(xs))*31 + xs[0]', ' + x*31 + int64(f*2)'][np_]
 
 
 def inst_literal(e, a):
@@ -333,12 +361,18 @@ def call_func(e):
     return '\n'.join(L)
 
 
+def has_origin(e):
+    """entries for which the Origin(..) path is generated: real static types available, ordinary methods"""
+    return (e['pk'] == 'pa' or e['exported_type']) and not e['generic'] and not e['promoted'] and e['layout'] != 4
+
+
 def mock_func(e):
     """Per entry: tmplE<id> (template instance for Struct), lookE<id> (the lookup through the requested API path),
     cbE<id> (typed callback number k), standInE<id> (typed stand-in for As)."""
     ps = PARAMS[e['np']][0]
     pl = (', ' + ps) if ps else ''
-    argok = ['true', 'x == w.WantX', 'x == w.WantX && s == w.WantS', 'a == w.WantArr && b == w.WantArr2'][e['np']]
+    argok = ['true', 'x == w.WantX', 'x == w.WantX && s == w.WantS', 'a == w.WantArr && b == w.WantArr2', 'c == w.WantArr16',
+             'len(xs) == 2 && xs[0] == w.WantX && xs[1] == w.WantX+1', 'f == w.WantF && x == w.WantX'][e['np']]
     lay = e['layout']
     i = e['id']
     visible = e['pk'] == 'pa' or e['exported_type']
@@ -382,13 +416,34 @@ def mock_func(e):
     L += [f'func lookE{i}(b *mocker.Builder, via, pkg, raw, m, tmpl string) interface{{}} {{', '\tswitch via {']
     if visible:
         L += ['\tcase "SM":', f'\t\treturn b.Struct(tmplE{i}(tmpl)).Method(m)', '\tcase "SX":', f'\t\treturn b.Struct(tmplE{i}(tmpl)).ExportMethod(m)']
+        if not e['ptr'] and not e['promoted']:
+            # a VALUE method mocked through a POINTER instance (what README 1.2 shows for pointer methods)
+            L += ['\tcase "SP":', f'\t\treturn b.Struct(&{go_type(e, "pa")}{{}}).Method(m)']
     if not e['generic']:
-        L += ['\tcase "EC":', '\t\treturn b.ExportStruct(raw).Method(m)', '\tcase "ES":', '\t\treturn b.Pkg(pkg).ExportStruct(raw).Method(m)']
+        L += ['\tcase "EC":', '\t\treturn b.ExportStruct(raw).Method(m)', '\tcase "ES":', '\t\treturn b.Pkg(pkg).ExportStruct(raw).Method(m)',
+              '\tcase "EF":', '\t\treturn b.Pkg(pkg).ExportFunc(raw)     // raw = "(*T).m" | "T.m"']
     L += ['\t}', '\tpanic("probe: API path not generated for this entry")', '}', '']
+    sp_cb = None
+    if visible and not e['ptr'] and not e['promoted']:
+        # if this ever runs for a call of the value method, the receiver was not handed over unchanged (types differ)
+        sp_cb = f'func(r *{go_type(e, "pa")}{pl}) int64 {{ w.Hit(k, false, {argok}); return w.Sentinel }}'
+    if has_origin(e):
+        an = ['', 'x', 'x, s', 'a, b', 'c'][e['np']]
+        want = f'w.WantA*1000003 + {e["K"]}' + ['', ' + x*31', ' + x*31 + int64(len(s))', ' + a[0]*31 + b[3]', ' + c[3]*31'][e['np']]
+        rt = ('*' if e['ptr'] else '') + go_type(e, 'pa')
+        L += [f'// origE{i} is the placeholder goom turns into "the original {e["go"]}.{e["m"]}" (Origin)',
+              f'var origE{i} = func(r {rt}{pl}) int64 {{', '\tw.Id(1)', '\tw.Id(2)', '\tw.Id(3)', '\treturn w.Id(-1)', '}', '',
+              f'func origPtrE{i}() interface{{}} {{ return &origE{i} }}', '',
+              f'func cbOE{i}(k int) interface{{}} {{',
+              f'\treturn func(r {rt}{pl}) int64 {{',
+              f'\t\to := origE{i}(r{", " + an if an else ""})',
+              f'\t\tw.Hit(k, {recv_ok}, {argok} && o == {want})', '\t\treturn w.Sentinel', '\t}', '}', '']
     for name, real, fake in ((f'cbE{i}(via string, k int)', real_cb, fake_cb), (f'standInE{i}(via string)', real_si, fake_si)):
         L.append(f'func {name} interface{{}} {{')
+        if sp_cb and name.startswith('cbE'):
+            L += ['\tif via == "SP" {', f'\t\treturn {sp_cb}', '\t}']
         if fake:
-            L += ['\tif via == "ES" || via == "EC" {', f'\t\treturn {fake}', '\t}']
+            L += ['\tif via == "ES" || via == "EC" || via == "EF" {', f'\t\treturn {fake}', '\t}']
         if real:
             L.append(f'\treturn {real}')
         else:
@@ -402,6 +457,11 @@ def mock_func(e):
 def step_tok(via, e, m=None, raw=None, pkg=None, tmpl=None):
     m = e['m'] if m is None else m
     pkg = e['pkg'] if pkg is None else pkg
+    if via == 'EF':
+        fn = (f'(*{e["T"]})' if e['ptr'] else e['T']) + '.' + m if raw is None else raw
+        return f'EF~{pkg}~{fn}~{e["id"]}'
+    if via == 'SP':
+        return f'SP~{pkg}~{e["T"]}~1~{m}~{e["id"]}'
     if via in ('SM', 'SX'):
         return f'{via}~{pkg}~{e["T"]}~{1 if e["ptr"] else 0}~{m}~{e["id"]}' + (f'~{tmpl}' if tmpl else '')
     raw = (('*' if e['ptr'] else '') + e['T']) if raw is None else raw
@@ -420,6 +480,7 @@ def vias_for(e):
         v.append('ES')
         if e['pk'] == 'pa':
             v.append('EC')
+        v.append('EF')
     return v
 
 
@@ -538,7 +599,7 @@ def gen_hists(tier, rng, entries):
             ('relookup', [lk, f'T~0~{val(10)}', f'L~1~{step_tok(via, e)}', 'A~1', f'L~2~{step_tok(via, e)}', f'T~2~{val(11)}']),
             ('reset-rearm-apply', [lk, 'A~0', 'R', f'S~0~{val(12)}~{val(13)}', 'A~0']),
         ]
-        if via == 'SM' and e['np'] in (1, 2) and not e['generic']:
+        if via == 'SM' and e['np'] in (1, 2):
             P += [
                 ('returns-when', [lk, f'SW~0~{val(20)}~{val(21)}~1~{val(22)}']),
                 ('returns-when-nomatch', [lk, f'SW~0~{val(23)}~{val(24)}~0~{val(25)}']),
@@ -578,7 +639,7 @@ def gen_hists(tier, rng, entries):
                 steps.append(f'C~{h}'); has_default[h] = False
             elif r == 6:
                 steps.append('R'); has_default = [False] * len(picks)
-            elif via == 'SM' and e['np'] in (1, 2) and not e['generic']:
+            elif via == 'SM' and e['np'] in (1, 2):
                 if r == 7:
                     steps.append(f'W~{h}~1~{val(n)}')
                 elif r == 8 and has_default[h]:
@@ -619,11 +680,64 @@ def gen_hists(tier, rng, entries):
                                           step_tok(rng.choice([v for v in vias_for(a) if not (a['generic'] and v == 'SX')] or ['SM']), a)
                                           if c['id'] != a['id'] and [v for v in vias_for(a) if not (a['generic'] and v == 'SX')] else 'R']))
                 H.append(('reuse:two-objects', [tokf('D', 0, a), tokf('D', 1, b2), 'A~0', 'A~1', 'C~0', tokf('RD', 0, c), 'R', 'A~0' if c['id'] != b2['id'] else 'R']))
+    # lane 11: a value method mocked through a pointer instance (known finding C06-K2: only the (*T).m wrapper is patched)
+    spe = [e for e in entries if not e['ptr'] and not e['promoted'] and e['m'][0].isupper() and (e['pk'] == 'pa' or e['exported_type'])]
+    for e in spe[::(4 if tier == 'quick' else 1)]:
+        H.append(('value-via-pointer', [step_tok('SP', e)]))
+    # lane 12: the package given with a shorter path (only the package name, a path suffix): must be an error, never a match
+    for e in [x for x in entries if x['pk'] in ('xu', 'yu', 'yv') and not x['generic']][::(3 if tier == 'quick' else 1)]:
+        parts = e['pkg'].split('/')
+        for cut in (len(parts) - 1, len(parts) - 2, 1, 3):
+            H.append(('malformed-pkg-suffix', [step_tok('ES', e, pkg='/'.join(parts[cut:]))]))
+    # lane 14: two live mocker objects on ONE method (different API paths), the displaced one cancelled
+    two = [e for e in entries if not e['generic'] and (e['pk'] == 'pa' or e['exported_type']) and e['m'][0].isupper() and not e['promoted']]
+    for e in two[::(9 if tier == 'quick' else 2)]:
+        a, b2 = f'L~0~{step_tok("SM", e)}', f'L~1~{step_tok("ES", e)}'
+        H.append(('two-mockers', [a, b2, 'A~0', 'A~1', 'C~0']))
+        H.append(('two-mockers', [a, b2, 'A~0', 'A~1', 'C~1']))
+        H.append(('two-mockers', [a, b2, 'A~1', f'T~0~{val(60)}', 'C~1', 'A~1']))
+    # lane 13: Origin(&placeholder): the mock goes through the trampoline path and the callback calls the original through it
+    oe = [(e, via) for e in entries if has_origin(e) for via in vias_for(e) if via in ('SM', 'SX')]
+    for e, via in oe[::(6 if tier == 'quick' else 2)]:
+        lk = f'L~0~{step_tok(via, e)}'
+        H.append(('origin', [lk, 'O~0', 'A~0']))
+        H.append(('origin', [lk, 'O~0', 'A~0', 'C~0', 'A~0']))
+        H.append(('origin', [lk, 'A~0', 'C~0', 'O~0', 'A~0']))
+    # lane 10: the patch package used directly — guards created first, applied / unpatched later, interleaved
+    gable = [e for e in entries if e['m'][0].isupper() and (e['pk'] == 'pa' or e['exported_type'])]
+    gn = lambda h, e: f'GN~{h}~{e["pkg"]}~{e["T"]}~{1 if e["ptr"] else 0}~{e["m"]}~{e["id"]}'
+    for _ in range(120 if tier == 'quick' else 1500):
+        n = 2 + rng.below(3)
+        es = []
+        while len(es) < n:
+            e = rng.choice(gable)
+            if all(call_sym(e) != call_sym(o) for o in es):
+                es.append(e)
+        steps = [gn(h, e) for h, e in enumerate(es)]          # all guards first ...
+        order = list(range(n))
+        for i in range(n - 1, 0, -1):
+            j = rng.below(i + 1)
+            order[i], order[j] = order[j], order[i]
+        steps += [f'GA~{h}' for h in order]                   # ... applied in a random order ...
+        for _ in range(rng.below(3)):                         # ... some unpatched / re-applied / re-created afterwards
+            h = rng.below(n)
+            steps.append(rng.choice([f'GU~{h}', f'GA~{h}', gn(h, es[h])]))
+        H.append(('guards', steps))
     # lane 5: the C06-K1 follow-up, oracle only (the Lean model does not cover a patched generic wrapper)
-    gex = [e for e in entries if e['generic'] and e['m'][0].isupper()]
+    gex = [e for e in entries if e['generic'] and e['m'][0].isupper() and not e.get('duff')]
     for e in gex[:4 if tier == 'quick' else 20]:
         H.append(('k1-poison', [step_tok('SX', e), step_tok('SM', e)]))
-    return H
+    # histories on methods whose wrapper calls runtime.duffcopy crash the probe process on a tree without repair F27 (one
+    # restart each): keep a bounded number of them (spread over the lanes), all others are unaffected
+    duff_ids = {str(e['id']) for e in entries if e.get('duff')}
+    cap, kept, out = (8 if tier == 'quick' else 150), collections.Counter(), []
+    for lane, steps in H:
+        if any(tok.rsplit('~', 2)[-1] in duff_ids or tok.rsplit('~', 2)[-2] in duff_ids for tok in steps if '~' in tok and tok.split('~')[0] not in ('A', 'T', 'S', 'W', 'SW', 'C', 'GA', 'GU')):
+            if sum(kept.values()) >= cap or kept[lane] >= 2:
+                continue
+            kept[lane] += 1
+        out.append((lane, steps))
+    return out
 
 
 def parse_obs(obs):
@@ -648,6 +762,8 @@ def parse_obs(obs):
 def step_target(tok, entries, index):
     """Which entry does a lookup NAME according to the property (independent of the Lean model)?  None for malformed."""
     f = tok.split('~')
+    if f[0] == 'SP':      # Struct(&T{}).Method(m) for a VALUE method m of T: the user names T.m
+        return index.get((f[1], f[2], False, f[4])) if f[4][:1].isupper() else None
     if f[0] in ('SM', 'SX'):
         key = (f[1], f[2], f[3] == '1', f[4])
         e = index.get(key)
@@ -658,10 +774,99 @@ def step_target(tok, entries, index):
         raw = f[2]
         ptr = raw.startswith('*')
         return index.get((f[1], raw[1:] if ptr else raw, ptr, f[3]))
+    if f[0] == 'EF':
+        m = re.match(r'^\(\*([^()]+)\)\.([^.]+)$', f[2])
+        if m:
+            return index.get((f[1], m.group(1), True, m.group(2)))
+        t, _, mm = f[2].rpartition('.')
+        return index.get((f[1], t, False, mm))
+    return None
+
+
+def guard_oracle(steps, res, hits, after, entries, index, name):
+    """patch-level guards: a method runs the callback given when the guard that was applied last to it was CREATED."""
+    made = {}        # guard variable -> (entry, creation step)
+    live = {}        # call symbol -> (entry id, callback)
+    for k, tok in enumerate(steps):
+        f = tok.split('~')
+        if f[0] == 'GN':
+            e = index.get((f[2], f[3], f[4] == '1', f[5])) if f[5][:1].isupper() else None
+            if e is None:
+                continue
+            if res[k] != 'ok':
+                return f'step {k} `{tok}` names an existing method with the right receiver kind but was answered {res[k]}'
+            made[f[1]] = (e, k)
+            live.pop(call_sym(e), None)       # replaceFunc unpatches an earlier patch of the same entry
+        elif f[1] in made:
+            e, k0 = made[f[1]]
+            if res[k] != 'ok':
+                return f'step {k} `{tok}` was answered {res[k]}'
+            if f[0] == 'GA':
+                live[call_sym(e)] = (e['id'], k0)
+            elif live.get(call_sym(e), (None, None))[1] == k0:
+                live.pop(call_sym(e), None)
+    for i, h in hits.items():
+        e = entries[i]
+        a = live.get(call_sym(e)) or (live.get(call_sym(entries[e['base_id']])) if e.get('promoted') else None)
+        if a is None:
+            return f'{name(e)} does not run its original body ({"/".join(h["t"])}) although no applied guard names it (steps: {" ; ".join(steps)})'
+        if h['t'] != ['k%d' % a[1]] * 3:
+            return f'{name(e)} shows {"/".join(h["t"])}, but the guard applied to it was created with the callback of step {a[1]}'
+        if not h['rok']:
+            return f'callback {a[1]} for {name(e)} did not receive the caller\'s receiver unchanged as first argument'
+    for sym, (i, k0) in live.items():
+        if i not in hits:
+            return f'{name(entries[i])}: the guard created in step {k0} was applied but the method still runs its original body'
+    if after != 'clean':
+        return 'after unpatching every guard some method does not run its original body'
+    return None
+
+
+def lookup_of(tok):
+    """the lookup text inside a step token (None for steps without one) and its API path"""
+    f = tok.split('~')
+    if f[0] in ('SM', 'SX', 'ES', 'EC', 'SP', 'EF'):
+        return f
+    if f[0] == 'L':
+        return f[2:]
     return None
 
 
 def oracle(steps, obs, entries, index):
+    """`oracle_core` plus the attribution of a failure to a RECORDED defect class: only when the failing method / step is
+    itself in that class (or the process died in a history that exercises it)."""
+    why, key, notes = oracle_core(steps, obs, entries, index)
+    if why is None or key is not None:
+        return why, key, notes
+    name = lambda e: f'{e["pkg"]}.{e["go"]}.{e["m"]}'
+    died = why.startswith('no usable observation') or 'Reset' in why
+    for tok in steps:
+        f = tok.split('~')
+        lk = lookup_of(tok)
+        e = None
+        if lk:
+            e = step_target('~'.join(lk), entries, index)
+        elif f[0] in ('D', 'RD') and f[2] == 'UM':
+            sn = f[4]
+            ptr = sn.startswith('(*')
+            e = index.get((f[3], sn[2:-1] if ptr else sn, ptr, f[5]))
+        elif f[0] in ('D', 'RD', 'GN'):
+            o = 3 if f[0] != 'GN' else 2
+            e = index.get((f[o], f[o + 1], f[o + 2] == '1', f[o + 3]))
+        if e is None:
+            continue
+        concerns = died or name(e) in why or tok in why
+        byname = (lk and lk[0] in ('SX', 'ES', 'EC', 'EF')) or (f[0] in ('D', 'RD') and f[2] == 'UM')
+        if concerns and lk and lk[0] == 'SP':
+            return why, 'value-method-via-pointer', notes
+        if concerns and e.get('duff'):
+            return why, 'generic-duffcopy', notes
+        if concerns and e['pk'] == 'yv' and byname:
+            return why, 'dotted-package-byname', notes
+    return why, None, notes
+
+
+def oracle_core(steps, obs, entries, index):
     """The property on the implementation's observation, by a property-level reading of the history that does not use the
     Lean model: a method is *currently mocked* by the last arming call (Apply / Return / Returns / When..Return) on a lookup
     that names it, until its handle is cancelled or the builder reset; everything else runs its original body; after the
@@ -674,9 +879,12 @@ def oracle(steps, obs, entries, index):
     if len(res) != len(steps):
         return f'result list does not match the steps: {obs[:200]}', None, notes
     name = lambda e: f'{e["pkg"]}.{e["go"]}.{e["m"]}'
+    if steps and steps[0].startswith('GN~'):
+        return guard_oracle(steps, res, hits, after, entries, index, name), None, notes
     armed = {}        # call symbol -> {'kind': 'cb'|'stub', 'k': step, 'vals': set, 'targets': set(entry ids)}
     handles = {}      # handle -> entry or None
     direct = set()    # handles of mockers made with the exported constructors
+    with_origin = set()   # handles with an Origin placeholder set (Cancel forgets it)
     gaps = []         # (step, entry): by-name step on a generic instantiation (known finding C06-K1)
     byname_generic = set()
     for k, tok in enumerate(steps):
@@ -686,6 +894,7 @@ def oracle(steps, obs, entries, index):
             if res[k] != 'ok':
                 return f'builder Reset answered {res[k]}', None, notes
             armed = {sy: a for sy, a in armed.items() if a.get('h') in direct}    # the builder does not know directly constructed mockers
+            with_origin = {h for h in with_origin if h in direct}
             continue
         if op in ('D', 'RD'):
             if f[2] == 'UM':
@@ -706,10 +915,18 @@ def oracle(steps, obs, entries, index):
             if e is not None and res[k] != 'ok':
                 return f'step {k} `{tok}` looks up an existing method with the right receiver kind but was answered {res[k]}', None, notes
             continue
+        if op == 'O':
+            if handles.get(f[1]) is not None:
+                if res[k] != 'ok':
+                    return f'step {k} `{tok}` (Origin) on a handle of {name(handles[f[1]])} was answered {res[k]}', None, notes
+                with_origin.add(f[1])
+            continue
         if op in ('A', 'T', 'S', 'W', 'SW', 'C'):
             e = handles.get(f[1])
             if e is None:
                 continue
+            if op == 'C':
+                with_origin.discard(f[1])
             sym = call_sym(e)
             if res[k] != 'ok':
                 return f'step {k} `{tok}` on a handle of {name(e)} was answered {res[k]}', None, notes
@@ -717,7 +934,7 @@ def oracle(steps, obs, entries, index):
             if op == 'C':
                 armed.pop(sym, None)
             elif op == 'A':
-                armed[sym] = {'kind': 'cb', 'k': k, 'vals': set(), 'targets': {e['id']}, 'h': f[1]}
+                armed[sym] = {'kind': 'cb', 'k': k, 'vals': set(), 'targets': {e['id']}, 'h': f[1], 'origin': f[1] in with_origin}
             else:
                 if op == 'T':
                     vals = f[2:3]
@@ -736,7 +953,7 @@ def oracle(steps, obs, entries, index):
         e = step_target(tok, entries, index)
         if e is None:
             continue
-        if e['generic'] and op != 'SM':
+        if e['generic'] and op not in ('SM', 'SP'):
             gaps.append((k, e))
             byname_generic.add(e['id'])
             continue
@@ -759,6 +976,9 @@ def oracle(steps, obs, entries, index):
                 return f'{name(e)} shows {"/".join(h["t"])} on its three instances, but it is currently mocked by the callback of step {a["k"]}', None, notes
             if not h['rok']:
                 return f'callback {a["k"]} for {name(e)} did not receive the caller\'s receiver unchanged as first argument', None, notes
+            if not h['aok'] and a.get('origin'):
+                return (f'callback {a["k"]} for {name(e)} called the Origin placeholder and did not get the result of the original method '
+                        f'(or saw other arguments)'), None, notes
             if not h['aok']:
                 notes['dictshift' if e['generic'] else 'args-differ'] += 1
         else:
@@ -818,17 +1038,35 @@ def read_syms(binary):
 
 def entry_tok(e):
     # np on the wire = ordinary parameters passed in REGISTERS (the ones a shape body's dictionary displaces); kind 3 has none
-    return (f'{e["pkg"]}~{e["T"]}~{1 if e["ptr"] else 0}~{e["m"]}~{e["shape"]}~{0 if e["np"] == 3 else e["np"]}'
+    return (f'{e["pkg"]}~{e["T"]}~{1 if e["ptr"] else 0}~{e["m"]}~{e["shape"]}~{0 if e["np"] >= 3 else e["np"]}'
             f'~{e["base_id"] if e.get("promoted") else "-"}')
 
 
-def run_impl(binary, ops_path, n, tag):
-    """Run the probe; a crash loses only the op it happened in."""
+PROBE_ENV = {'GOOM_DEBUG': '', 'GOTRACEBACK': 'single', 'GODEBUG': '', 'GOGC': ''}   # scrub goom / runtime knobs of the caller
+PROBE_TIMEOUT = 7200       # typical wall time of the whole stream: 5-60 s
+
+
+def probe_once(binary, ops_path, outp, start):
+    """One run of the probe from op `start`; a timeout is retried once and is never an observation."""
+    for attempt in (0, 1):
+        try:
+            rc, log = C.run_probe(binary, 'TestVerifC06', ops_path, outp, env=dict(PROBE_ENV, VERIF_C06_FROM=str(start)), timeout=PROBE_TIMEOUT)
+        except subprocess.TimeoutExpired:
+            rc, log = -1, 'test timed out (killed by the check)'
+        if 'test timed out' not in log:
+            return rc, log
+        C.log(f'C06: probe timed out from op {start} (attempt {attempt + 1})')
+    raise C.Infra('C06 probe timed out twice (machine overloaded?); nothing can be said about the property')
+
+
+def run_impl(binary, ops_path, n, tag, ops=None):
+    """Run the probe; a crash loses only the op it happened in.  An op whose answer is a crash or `before=dirty` (a leak of
+    the op before it) is run again alone in a fresh process: only what reproduces there is reported for it."""
     impl = [None] * n
     outp = os.path.join(C.BUILD, f'{tag}.impl')
     start, crashes = 0, 0
     while start < n:
-        rc, log = C.run_probe(binary, 'TestVerifC06', ops_path, outp, env={'VERIF_C06_FROM': str(start)}, timeout=1500)
+        rc, log = probe_once(binary, ops_path, outp, start)
         got = C.read_indexed(outp, n)
         last = start - 1
         for i in range(start, n):
@@ -838,24 +1076,126 @@ def run_impl(binary, ops_path, n, tag):
         if rc == 0:
             break
         crashes += 1
+        C.log(f'C06: probe died at op {last + 1} ({crashes} so far)')
         sig = re.search(r'(SIGSEGV|SIGBUS|SIGILL|SIGTRAP|fatal error: [^\n]*|panic: [^\n]*)', log)
-        impl[last + 1 if last + 1 < n else n - 1] = 'crash:' + (sig.group(1)[:60].replace(' ', '-') if sig else f'rc{rc}')
+        if last + 1 < n:
+            impl[last + 1] = 'crash:' + (sig.group(1)[:60].replace(' ', '-') if sig else f'rc{rc}')
         start = last + 2
-        if crashes > 50:
+        if crashes > max(400, n // 4):
             raise C.Infra('C06 probe keeps crashing:\n' + log[-2000:])
+    if ops is not None:
+        suspects = [i for i in range(n) if impl[i] is not None and (impl[i].startswith('crash:') or impl[i].startswith('before=dirty'))]
+        for i in suspects[:20]:
+            one = os.path.join(C.BUILD, f'{tag}.one.ops')
+            open(one, 'w').write(ops[i] + '\n')
+            rc, log = probe_once(binary, one, outp + '.one', 0)
+            again = C.read_indexed(outp + '.one', 1)[0]
+            if again is not None:
+                impl[i] = again                      # did not reproduce in isolation (or gives its real answer)
+            elif rc == 0:
+                raise C.Infra('C06 probe answered nothing for a single op')
+    missing = [i for i in range(n) if impl[i] is None]
+    if missing:
+        raise C.Infra(f'C06 probe left {len(missing)} of {n} operations unanswered (first: {missing[0]})')
     return impl
 
 
 def execute(hists, entries, syms, binary, tag='c06'):
     tail = ' | ' + ' '.join(entry_tok(e) for e in entries) + ' | ' + ' '.join(syms)
     # '@' abbreviates the common import-path prefix BASE on the wire (expanded again by the probe and by the driver)
-    ops = [('c06.hist ' + ' '.join(steps) + tail).replace(BASE, '@') for steps in hists]
+    ops = [(('c06.guard ' if steps and steps[0].startswith('GN~') else 'c06.hist ') + ' '.join(steps) + tail).replace(BASE, '@') for steps in hists]
     ops_path = os.path.join(C.BUILD, f'{tag}.ops')
     open(ops_path, 'w').write('\n'.join(ops) + '\n')
-    impl = run_impl(binary, ops_path, len(ops), tag)
+    impl = run_impl(binary, ops_path, len(ops), tag, ops)
     exe, err = C.build_driver()
     model = C.run_driver(exe, ops_path, os.path.join(C.BUILD, f'{tag}.model')) if exe else None
     return impl, model, err
+
+
+def gen_inner(tier, rng):
+    """Wrappers for bytecode.GetInnerFunc: filler instructions, CALLs forward / backward out of the wrapper / backward inside it,
+    padding and the next function's prologue; every sequence ends in padding followed by code."""
+    ops = []
+    for _ in range(300 if tier == 'quick' else 6000):
+        toks, cur = [], 0
+        for _ in range(rng.below(14)):
+            r = rng.below(10)
+            if r < 6:
+                n = 1 + rng.below(8)
+                toks.append(f'n{n}')
+                cur += n
+            elif r == 6:
+                toks.append(f'c{-rng.below(cur + 1)}' if cur else 'n1')      # backward, stays inside the wrapper
+                cur += 5 if toks[-1][0] == 'c' else 1
+            elif r == 7:
+                toks.append(f'c{rng.below(1 << rng.below(24))}')               # forward
+                cur += 5
+            elif r == 8:
+                toks.append(f'c{-(cur + 1 + rng.below(1 << rng.below(24)))}')  # backward, in front of the wrapper
+                cur += 5
+            elif toks:
+                toks.append(rng.choice(['i', 'p']))
+                cur += 1
+        ops.append('c06.inner ' + ' '.join(toks + ['i', 'n1']))
+    return list(dict.fromkeys(ops))
+
+
+def inner_expect(op):
+    """first CALL that leaves the wrapper, before any padding / next prologue"""
+    cur, pad = 0, False
+    for t in op.split()[1:]:
+        if t == 'p':
+            return 'inner=none'
+        if t == 'i':
+            pad, cur = True, cur + 1
+            continue
+        if pad:
+            return 'inner=none'
+        if t[0] == 'n':
+            cur += int(t[1:])
+        else:
+            rel = int(t[1:])
+            if rel >= 0 or cur + rel < 0:
+                return f'inner={cur + rel + 5}'
+            cur += 5
+    return 'inner=none'
+
+
+def run_inner(tier, rng, out):
+    ops = gen_inner(tier, rng)
+    if len(ops) < 50:
+        raise C.Infra('C06 inner-function lane generated nothing')
+    b, err = C.overlay_build('c06-inner', 'internal/bytecode', {'zz_verif_c06_test.go': os.path.join(C.HARNESS, 'c06', 'inner_probe_test.go')},
+                             C.helper_pkgs())
+    if b is None:
+        raise C.Infra('C06 inner-function probe does not build against the current tree:\n' + err[-3000:])
+    ops_path = os.path.join(C.BUILD, 'c06-inner.ops')
+    open(ops_path, 'w').write('\n'.join(ops) + '\n')
+    outp = os.path.join(C.BUILD, 'c06-inner.impl')
+    rc, log = C.run_probe(b, 'TestVerifC06Inner', ops_path, outp, env=PROBE_ENV, timeout=PROBE_TIMEOUT)
+    impl = C.read_indexed(outp, len(ops))
+    if rc != 0 or any(x is None for x in impl):
+        rc, log = C.run_probe(b, 'TestVerifC06Inner', ops_path, outp, env=PROBE_ENV, timeout=PROBE_TIMEOUT)     # once more before saying anything
+        impl = C.read_indexed(outp, len(ops))
+        if rc != 0 or any(x is None for x in impl):
+            i = next((j for j, x in enumerate(impl) if x is None), 0)
+            out.violation(f'GetInnerFunc crashed or did not answer on `{ops[i]}`', {'kind': 'inner', 'ops': [ops[i]], 'log': log[-1500:]})
+            return {'inner_wrappers': len(ops), 'inner_ok': 0}
+    exe, derr = C.build_driver()
+    model = C.run_driver(exe, ops_path, os.path.join(C.BUILD, 'c06-inner.model')) if exe else None
+    shown = 0
+    for i, op in enumerate(ops):
+        want = inner_expect(op)
+        if impl[i] != want and shown < 2:
+            shown += 1
+            out.violation(f'GetInnerFunc on `{op}`: {impl[i]}, but the first CALL that leaves the wrapper gives {want}',
+                          {'kind': 'inner', 'ops': [op], 'observed': impl[i], 'expected': want})
+        elif model is not None and model[i] != impl[i] and shown < 2:
+            shown += 1
+            out.violation(f'model and GetInnerFunc disagree on `{op}`', {'kind': 'inner-correspondence', 'ops': [op], 'impl': impl[i], 'model': model[i]},
+                          no_failing_input=True)
+    kinds = collections.Counter('none' if x == 'inner=none' else ('forward' if not x[6:].startswith('-') else 'backward') for x in impl)
+    return {'inner_wrappers': len(ops), 'inner_results': dict(kinds)}
 
 
 def spec_check(entries, syms):
@@ -874,6 +1214,11 @@ def run(tier):
     index = {(e['pkg'], e['T'], e['ptr'], e['m']): e for e in entries}
     lanes = gen_hists(tier, rng.fork('hist'), entries)
     hists = [s for _, s in lanes]
+    lane_floor = collections.Counter(l.split(':')[0] for l, _ in lanes)
+    for need in ('origin', 'value-via-pointer', 'malformed-pkg-suffix', 'single', 'malformed-method', 'malformed-type', 'malformed-pkg', 'collide-pkgname', 'siblings', 'random', 'template', 'handle',
+                 'reuse', 'guards', 'k1-poison'):
+        if lane_floor[need] < 3:
+            raise C.Infra(f'C06 generator produced no `{need}` histories: the corpus/generator is broken, nothing was checked')
     impl, model, derr = execute(hists, entries, syms, binary)
     bad, notes = [], collections.Counter()
     for i, steps in enumerate(hists):
@@ -897,9 +1242,20 @@ def run(tier):
     hard = [b for b in bad if b[2] is None]
     if model is None:
         proof['failed'].append(('goomdrv', 'driver does not build: ' + derr[-500:]))
+    known_keys = {kf.get('match', {}).get('key') for kf in C.known_findings('C06') if kf.get('status') == 'known'}
+    known_idx = {i for i, why, key in bad if key in known_keys}      # the model describes the repaired code there
+    def same_modulo_known(i):
+        # while C06-K4 is an unrepaired known finding the code spells names in the dotted package unescaped
+        return ('dotted-package-byname' in known_keys and '%2e' in model[i]
+                and impl[i] is not None and impl[i] == model[i].replace('%2e', '.'))
     diffs = [(i, hists[i], impl[i], model[i]) for i in range(len(hists))
-             if model is not None and impl[i] != model[i] and lanes[i][0] != 'k1-poison']
+             if model is not None and impl[i] != model[i] and lanes[i][0] != 'k1-poison' and i not in known_idx and not same_modulo_known(i)]
     if missing and not hard:
+        rc_, gv, _ = C.sh(['go', 'version'], env=C.goenv())
+        if ' go1.23' not in gv:
+            # the shape spellings (go.shape.*) and the wrapper scheme written into the corpus are those of go1.23: with another
+            # toolchain a missing symbol says something about the check, not about goom
+            raise C.Infra(f'C06 corpus is written for go1.23 symbol naming, found `{gv.strip()}`: {missing[0]} not in the binary')
         out.violation(f'linker-name SPEC of the model is wrong for this toolchain: {missing[0]} is not a symbol of the probe binary',
                       {'kind': 'model-validation', 'missing': missing[:10]}, no_failing_input=True)
     if not hard:
@@ -913,6 +1269,7 @@ def run(tier):
             out.violation('proof obligations of Props/C06.lean no longer check and no failing input was found in the search',
                           {'kind': 'proof', 'broken': proof['failed'], 'searched': len(hists), 'output': proof.get('output', '')[-3000:]},
                           no_failing_input=True)
+    inner_stats = run_inner(tier, rng.fork('inner'), out)
     lane_count = collections.Counter(l for l, _ in lanes)
     res_classes = collections.Counter()
     nontrivial = set()
@@ -941,14 +1298,14 @@ def run(tier):
                 'replaced, distinct by (steps, set of replaced methods with callback numbers)',
         'distribution': {'types': ntypes, 'declared_methods': len(entries), 'methods_replaced_at_least_once': len(mocked_entries),
                          'calls_per_evaluation': len(entries) * 9, 'symbols_in_table': len(syms), 'symbols_dropped_unprintable': dropped,
-                         'lanes': dict(lane_count), 'step_results': dict(res_classes), 'oracle_notes': dict(notes),
+                         'lanes': dict(lane_count), 'GetInnerFunc_lane': inner_stats, 'step_results': dict(res_classes), 'oracle_notes': dict(notes),
                          'generic_instantiations': len({e['T'] for e in entries if e['generic']}),
                          'pointer_receiver_methods': sum(1 for e in entries if e['ptr']), 'value_receiver_methods': sum(1 for e in entries if not e['ptr']),
                          'unexported_methods': sum(1 for e in entries if not e['m'][0].isupper()),
                          'unexported_types': len({(e['pk'], e['T']) for e in entries if not e['exported_type']})},
         'explanation': 'observed only: linker naming, reflect method table, wrappers/shape bodies/devirtualisation, register preservation; '
-                       'equal-shape instantiations share a body (mocking one mocks the other); callbacks on generic methods get the dictionary '
-                       f'as first ordinary parameter ({notes.get("dictshift", 0)} observations)',
+                       'equal-shape instantiations share a body (mocking one mocks the other); '
+                       f'callbacks whose arguments differed from the call: {notes.get("dictshift", 0) + notes.get("args-differ", 0)}',
         'samples': [{'steps': hists[i], 'impl': impl[i], 'model': model[i] if model else None}
                     for i in (0, len(hists) // 3, len(hists) // 2, len(hists) - 1)],
     }
@@ -958,6 +1315,21 @@ def run(tier):
 
 
 def replay(body):
+    if body.get('kind', '').startswith('inner'):
+        out = C.Outcome('C06', 'replay')
+        ops = body['ops']
+        b, err = C.overlay_build('c06-inner', 'internal/bytecode', {'zz_verif_c06_test.go': os.path.join(C.HARNESS, 'c06', 'inner_probe_test.go')},
+                                 C.helper_pkgs())
+        ops_path = os.path.join(C.BUILD, 'c06-inner-replay.ops')
+        open(ops_path, 'w').write('\n'.join(ops) + '\n')
+        outp = os.path.join(C.BUILD, 'c06-inner-replay.impl')
+        C.run_probe(b, 'TestVerifC06Inner', ops_path, outp, env=PROBE_ENV)
+        impl = C.read_indexed(outp, len(ops))
+        rc = 0
+        for i, op in enumerate(ops):
+            print(f'{op}\n  impl: {impl[i]}\n  expected: {inner_expect(op)}')
+            rc |= impl[i] != inner_expect(op)
+        return int(rc)
     tier = body.get('tier', 'quick')
     os.environ['VERIF_SEED'] = str(body.get('corpus_seed', C.seed()))
     rng = C.Rng(C.seed()).fork('C06')
